@@ -156,6 +156,10 @@ func (r *schemaLoader) resolveRef(ref *Ref, target interface{}, basePath string)
 		if err != nil {
 			return err
 		}
+		if rv := reflect.ValueOf(res); rv.Kind() == reflect.Ptr && rv.IsNil() {
+			// the pointer stops at a member the typed document does not have
+			return fmt.Errorf("%s designates an unset member: %w", ref.String(), ErrSpec)
+		}
 	}
 	return swag.DynamicJSONToStruct(res, target)
 }
